@@ -8,5 +8,7 @@ CONSTANTS
   Routes = {"kwargs"}
   Layouts = {"flat", "nested"}
   Slim = TRUE
+  HistKinds = {}
+  MaxLookups = 0
 INVARIANT MainDirFollowsDocs
 CHECK_DEADLOCK FALSE
